@@ -33,7 +33,7 @@ inductive Op
   | setlineno (n : Nat) | grab | scanbytes (src : Nat) | scanstring (src : Nat)
   | scanbuffer (src : Nat) (nuls : Nat) | create (src : Nat) (size : Nat) | switch (b : Nat)
   | pushbuf (b : Nat) | popbuf | flush (b : Nat) | flushcur | delete (b : Nat) | restart (src : Nat)
-  | newyyin (src : Nat) | destroy
+  | newyyin (src : Nat) | destroy | cont | includeEnd
 deriving Repr, Inhabited, DecidableEq
 
 structure ABuf where
@@ -59,6 +59,9 @@ structure AState where
   srcs : Array (List UInt8) := #[]
   wraps : List (Option Nat) := []
   acts : Array (List Op) := #[]
+  eofDefault : List Op := []           -- script of an <<EOF>> action that has no script of its own
+  eacts : Array (List Op) := #[]       -- scripts of the successive <<EOF>> action executions
+  eactCounter : Nat := 0
   actCounter : Nat := 0
   out : Array String := #[]
   halted : Bool := false               -- fatal error happened
@@ -124,6 +127,7 @@ end AState
 
 inductive ActEnd
   | cont          -- action fell through: keep scanning inside the same yylex call
+  | eofCont       -- an <<EOF>> action asked to keep scanning (it switched buffers)
   | ret (v : Int) -- action returned
   | rejected      -- action executed REJECT: run the next alternative
   | halt
@@ -200,9 +204,14 @@ def bufferOp (cfg : Cfg) (s : AState) : Op → AState
     let s := { s with bufs := s.bufs.push b, reg := s.reg.push (some id), cur := some id }
     s.emit s!"buf {s.reg.size - 1}"
   | .scanbuffer src nuls =>
-    if nuls < 2 then { s with reg := s.reg.push none }.emit s!"nullbuf {s.reg.size}"
+    -- the caller hands over `size` bytes: the source followed by `nuls` of two NUL bytes;
+    -- yy_scan_buffer accepts them only if the last two bytes are NUL and scans the rest in place
+    let given : List UInt8 := ((s.srcs.getD src []) ++ [(0 : UInt8), 0]).take ((s.srcs.getD src []).length + nuls)
+    let n := given.length
+    if n < 2 || given.drop (n - 2) != [(0 : UInt8), 0] then
+      { s with reg := s.reg.push none }.emit s!"nullbuf {s.reg.size}"
     else
-      let b : ABuf := { pending := s.srcs.getD src [], file := none }
+      let b : ABuf := { pending := given.take (n - 2), file := none }
       let id := s.bufs.size
       let s := { s with bufs := s.bufs.push b, reg := s.reg.push (some id), cur := some id }
       s.emit s!"buf {s.reg.size - 1}"
@@ -284,6 +293,15 @@ def runAction (M : Matcher) (cfg : Cfg) (s : AState) : List Op → AState × Act
       let s := inputOp cfg s (s.wraps.length + 2)
       if s.halted then (s, .halt) else runAction M cfg s ops
     | .reject => (s, .rejected)
+    | .cont => (s, .eofCont)
+    | .includeEnd =>
+      if s.bstack.isEmpty then runAction M cfg s ops
+      else
+        let s' := bufferOp cfg s .popbuf
+        if s'.halted then (s', .halt) else
+        match runAction M cfg s' ops with
+        | (s'', .cont) => (s'', .eofCont)
+        | r => r
     | .ret v => (s, .ret v)
     | .terminate => (s, .ret 0)
     | op =>
@@ -324,11 +342,14 @@ def lexCall (M : Matcher) (cfg : Cfg) : Nat → AState → AState
       if more then lexCall M cfg fuel s
       else if cfg.eofScs.contains s.start then
         let s := s.emit s!"eof {s.start}"
-        let (s, script) := s.nextScript
+        let script := s.eacts.getD s.eactCounter []
+        let s := { s with eactCounter := s.eactCounter + 1 }
+        let script := if script.isEmpty then s.eofDefault else script
         let (s, e) := runAction M cfg s script
         match e with
         | .ret v => s.emit s!"ret {v}"
         | .halt => s
+        | .eofCont => lexCall M cfg fuel s
         | _ => s.emit "ret 0"
       else s.emit "ret 0"
     | inp =>
@@ -360,6 +381,7 @@ def runMain (M : Matcher) (cfg : Cfg) (fuel : Nat) (s : AState) : List Op → AS
       runMain M cfg fuel (if c == 10 then s.addLineno cfg (-1) else s) ops
     | .destroy =>
       let s' : AState := { srcs := s.srcs, wraps := s.wraps, acts := s.acts, actCounter := s.actCounter,
+                           eofDefault := s.eofDefault, eacts := s.eacts, eactCounter := s.eactCounter,
                            out := s.out.push "destroy 0", yyin := none }
       runMain M cfg fuel s' ops
     | op =>
